@@ -374,6 +374,16 @@ func (l Loader) form(opcode string, f opcodesxml.Form) inst.Form {
 		})
 	}
 
+	// XLAT addresses its table with RBX in 64-bit mode. The first form in the
+	// Opcodes database has EBX, which applies to 32-bit address size only.
+	if opcode == "XLAT" {
+		for i := range implicits {
+			if implicits[i].Register == "ebx" {
+				implicits[i].Register = "rbx"
+			}
+		}
+	}
+
 	// CMPXCHG compares the accumulator with the destination and loads the
 	// destination into it when they differ. The Opcodes database has no
 	// implicit operand for the register and memory forms.
